@@ -128,6 +128,8 @@ def universes(tier, purpose="opt"):
         U = [dict(n=2, k=2, T=3, labels=XY),
              dict(n=2, k=2, T=6, labels=["x"], segs=LONG),
              dict(n=3, k=2, T=6, labels=["x"], segs=LONG[:4], sym=True),
+             dict(n=3, k=1, T=6, labels=["x"], segs=LONG),  # incl. [0,6] vs [0,1] and [5,6]: covers re-using a unit twice
+             dict(n=4, k=1, T=6, labels=["x"], segs=[[0, 6], [0, 1], [5, 6], [2, 3]]),
              dict(n=2, k=2, T=3, labels=[None]),
              dict(n=2, k=2, T=2, labels=["x", None]),
              dict(n=2, k=2, T=2, labels=["", "x"]),  # the empty string is a legal label, distinct from "no label"
